@@ -33,12 +33,23 @@ def bounds(tier):
     return {"pool": "shared pool x {own rule, every rule on a sample, format_code safe/unsafe}", "calls_per_obligation": 3}
 
 
+# programs whose formatting consults the long-lived caches of the import tracing (stdlib modules only)
+STAR = [pool.Skeleton("star/%d" % i, t, meta={"rule": r}) for i, (t, r) in enumerate([
+    ("from os.path import *\n\nprint(join('a', 'b'), basename('c/d'))\n", "rule:tracing.fix_starred_imports"),
+    ("from math import *\n\nprint(floor(2.5), pi > 3)\n", "rule:tracing.fix_starred_imports"),
+    ("from os.path import *\nfrom math import *\n\nprint(join('a', 'b'), floor(7000 / 2))\n", "rule:tracing.fix_starred_imports"),
+    ("from os import path\nfrom os.path import join\n\nprint(path.join('a', 'b'), join('c', 'd'))\n", "rule:tracing.fix_reimported_names"),
+    ("import os.path\nfrom collections import *\n\nprint(OrderedDict(a=1), os.path.sep)\n", "rule:tracing.fix_starred_imports"),
+])]
+
+
 def obligations(tier, seed):
     rnd = random.Random(seed)
     quick = tier == "quick"
     sks = poolfam.pool_skeletons(tier, seed) + poolfam.direct_edit_skeletons()
     if quick:
         sks = rnd.sample(sks, 70)
+    sks = sks + STAR
     jobs = []
     for sk in sks:
         if sk.meta.get("rule"):
